@@ -69,6 +69,14 @@ func collect(dir string) []mut {
 				for _, a := range alts[x.Op] {
 					add(x.OpPos, len(x.Op.String()), a, "binop")
 				}
+				if x.Op == token.LAND || x.Op == token.LOR {
+					p0, p1 := fset.Position(x.Pos()).Offset, fset.Position(x.End()).Offset
+					l0, l1 := fset.Position(x.X.Pos()).Offset, fset.Position(x.X.End()).Offset
+					r0, r1 := fset.Position(x.Y.Pos()).Offset, fset.Position(x.Y.End()).Offset
+					ln := fset.Position(x.Pos()).Line
+					out = append(out, mut{file: rel, off: p0, end: p1, repl: "(" + string(src[l0:l1]) + ")", kind: "keep-left", old: string(src[p0:p1]), line: ln})
+					out = append(out, mut{file: rel, off: p0, end: p1, repl: "(" + string(src[r0:r1]) + ")", kind: "keep-right", old: string(src[p0:p1]), line: ln})
+				}
 			case *ast.UnaryExpr:
 				if x.Op == token.NOT {
 					add(x.OpPos, 1, "", "drop-not")
@@ -93,8 +101,10 @@ func collect(dir string) []mut {
 					switch x.Tok {
 					case token.CONTINUE:
 						add(x.Pos(), len("continue"), "break", "branch")
+						add(x.Pos(), len("continue"), "{}", "drop-branch")
 					case token.BREAK:
 						add(x.Pos(), len("break"), "continue", "branch")
+						add(x.Pos(), len("break"), "{}", "drop-branch")
 					}
 				}
 			case *ast.IncDecStmt:
@@ -105,9 +115,28 @@ func collect(dir string) []mut {
 				}
 			case *ast.IfStmt:
 				// negate the whole condition
+				if x.Else == nil && len(x.Body.List) > 0 {
+					b0, b1 := fset.Position(x.Body.Lbrace).Offset, fset.Position(x.Body.Rbrace).Offset
+					out = append(out, mut{file: rel, off: b0, end: b1 + 1, repl: "{}", kind: "empty-if", old: string(src[b0 : b1+1]), line: fset.Position(x.Pos()).Line})
+				}
 				if x.Init == nil {
 					p0, p1 := fset.Position(x.Cond.Pos()).Offset, fset.Position(x.Cond.End()).Offset
 					out = append(out, mut{file: rel, off: p0, end: p1, repl: "!(" + string(src[p0:p1]) + ")", kind: "negate-if", old: string(src[p0:p1]), line: fset.Position(x.Cond.Pos()).Line})
+				}
+			case *ast.AssignStmt:
+				// drop a plain (re)assignment: keep the right-hand side's evaluation
+				if x.Tok == token.ASSIGN && len(x.Lhs) == 1 && len(x.Rhs) == 1 {
+					p0, p1 := fset.Position(x.Lhs[0].Pos()).Offset, fset.Position(x.Lhs[0].End()).Offset
+					out = append(out, mut{file: rel, off: p0, end: p1, repl: "_", kind: "drop-assign", old: string(src[p0:p1]), line: fset.Position(x.Pos()).Line})
+				}
+			case *ast.SliceExpr:
+				if x.Low != nil {
+					p0, p1 := fset.Position(x.Low.Pos()).Offset, fset.Position(x.Low.End()).Offset
+					out = append(out, mut{file: rel, off: p0, end: p1, repl: "(" + string(src[p0:p1]) + ")+1", kind: "slice-lo+1", old: string(src[p0:p1]), line: fset.Position(x.Pos()).Line})
+				}
+				if x.High != nil {
+					p0, p1 := fset.Position(x.High.Pos()).Offset, fset.Position(x.High.End()).Offset
+					out = append(out, mut{file: rel, off: p0, end: p1, repl: "(" + string(src[p0:p1]) + ")-1", kind: "slice-hi-1", old: string(src[p0:p1]), line: fset.Position(x.Pos()).Line})
 				}
 			case *ast.ExprStmt:
 				// delete a call statement (method calls on values: x.Add(..), x.Set(..))
